@@ -42,8 +42,15 @@ class Adjoint(BaseForm):
         form = args[0]
         # Check trivial case: This is not a ufl.Zero but a ZeroBaseForm!
         if form == 0:
-            # Swap the arguments
-            return ZeroBaseForm(form.arguments()[::-1])
+            # Swap the arguments, with the same canonical numbering as
+            # in _analyze_form_arguments
+            reversed_args = form.arguments()[::-1]
+            return ZeroBaseForm(
+                tuple(
+                    type(arg)(arg.ufl_function_space(), number=i)
+                    for i, arg in enumerate(reversed_args)
+                )
+            )
 
         if isinstance(form, Adjoint):
             return form._form
